@@ -25,9 +25,9 @@ func init() {
 			"A case is one history; non-trivial when it contains >=1 fork; distinct by op-sequence hash",
 		Assumptions:  []string{fcAssume, "ProcessSlot is only called for a known root and a slot after that root's first known slot (documented use)"},
 		Batches:      func(tier string) int { return 16 },
-		ChildTimeout: func(string) time.Duration { return 15 * time.Minute },
+		ChildTimeout: func(string) time.Duration { return 60 * time.Minute },
 		Run: func(b *fw.B) {
-			n := fcHistories(b.Tier, 3000, 200000)
+			n := fcHistories(b.Tier, 3000, 60000)
 			maxOps := 40
 			if !fw.Quick(b.Tier) {
 				maxOps = 120
@@ -47,9 +47,9 @@ func init() {
 			"and head + query batteries continue for the rest of the history. Blocking is observed as the Go runtime's deadlock report in the timer-free child process. A case is one history; non-trivial when it contains >=1 update; distinct by op-sequence hash",
 		Assumptions:  []string{fcAssume, "prune = drop every node that is not a transition descendant-or-self of (finalized.root, start slot of finalized.epoch); canonical flag = ancestor of that node", "a wall-clock watchdog firing alone is inconclusive, not a violation"},
 		Batches:      func(tier string) int { return 16 },
-		ChildTimeout: func(string) time.Duration { return 15 * time.Minute },
+		ChildTimeout: func(string) time.Duration { return 60 * time.Minute },
 		Run: func(b *fw.B) {
-			n := fcHistories(b.Tier, 2000, 100000)
+			n := fcHistories(b.Tier, 2000, 60000)
 			maxOps := 40
 			if !fw.Quick(b.Tier) {
 				maxOps = 100
@@ -69,9 +69,9 @@ func init() {
 		Assumptions: []string{fcAssume, "CanonAtSlot is judged for anchorSlot <= slot < head.Slot only (at and beyond the head its documented meaning is ambiguous); Search without filters is judged as: result inside the view and containing every leaf block",
 			"ProcessBlock's ok result is compared with the documented contract"},
 		Batches:      func(tier string) int { return 16 },
-		ChildTimeout: func(string) time.Duration { return 15 * time.Minute },
+		ChildTimeout: func(string) time.Duration { return 60 * time.Minute },
 		Run: func(b *fw.B) {
-			n := fcHistories(b.Tier, 2000, 100000)
+			n := fcHistories(b.Tier, 2000, 24000)
 			maxOps := 40
 			if !fw.Quick(b.Tier) {
 				maxOps = 100
